@@ -14,7 +14,7 @@ from ..core import HarnessError, new_result
 
 PID = "C04"
 LEVEL = "translation_validation"
-SCALES = (0.5, 0.1, 2.5, 10)
+SCALES = (0.5, 0.1, 2.5, 10, 1.1, 3.3)
 
 
 def gen_tasks(tier, seed):
@@ -74,6 +74,13 @@ def gen_tasks(tier, seed):
             # scale invariance
             c_ = rng.choice(SCALES)
             tasks.append({**base, "scale": c_, "kwargs": {"weight_type": "float"}})
+            if rep == 0 and name in F.CURATED_DIGRAPHS:
+                tasks.append({**base, "scale": 1.1, "kwargs": {"weight_type": "float"}})
+    # scale factors that are not dyadic: c*6 is not the float sum of c*1 and c*5 (the scaled flow is still a flow up to rounding)
+    for name, wes in (("split_6_1_5", [("s", "a", 6), ("a", "b", 1), ("a", "c", 5), ("b", "t", 1), ("c", "t", 5)]),
+                      ("split_6_1_5_cycle", [("s", "a", 6), ("a", "b", 1), ("a", "c", 5), ("b", "t", 1), ("c", "t", 5), ("c", "x", 5), ("x", "c", 5)])):
+        for c_ in (1.1, 0.7, 3.3):
+            tasks.append({"name": name, "cls": "MinFlowDecompCycles", "starts": [], "ends": [], "ignored": [], "constraints": [], "edges": wes, "scale": c_, "kwargs": {"weight_type": "float"}})
     # two consecutive diamonds with the same 1/2 split (with and without a cycle on one branch) and a constraint that crosses the
     # branches: the constrained minimum (3) is above the unconstrained one (2), also with the guessed-weights pre-solve
     dd = [("s", "a", 3), ("a", "b", 1), ("b", "d", 1), ("d", "e", 1), ("e", "t", 1), ("a", "c", 2), ("c", "d", 2), ("d", "f", 2), ("f", "t", 2)]
@@ -343,7 +350,7 @@ def _scale_task(task, G, res):
     if outs[0] == outs[1]:
         res["discharged"] += 1
     else:
-        res["violations"].append({"signature": f"MinFlowDecompCycles:scale-variance:{_scale_diag(task, c)}",
+        res["violations"].append({"signature": f"MinFlowDecompCycles:scale-variance:{_scale_diag(task, c, outs)}",
                                   "summary": f"{task['name']}: f -> {outs[0]}, {c}*f -> {outs[1]}",
                                   "replay": {"kind": "scale", "task": task}})
     # LP level, all solver answers: feasibility of LP_k must not depend on c
@@ -371,7 +378,9 @@ def _scale_task(task, G, res):
     return res
 
 
-def _scale_diag(task, c):
+def _scale_diag(task, c, outs=None):
+    if outs and isinstance(outs[1][0], str) and outs[1][0].startswith("raised:"):
+        return "scaled-flow-" + outs[1][0]          # the scaled input is rejected outright (e.g. an exact float conservation test)
     fmin = min(f for (_u, _v, f) in task["edges"])
     if fmin * c < 1:
         return "repetition-cap-from-flow-value<1"
